@@ -1085,7 +1085,7 @@ class Lexer:
                 outputs[-1].extend(
                     [
                         f"""{condition} {self.datapack.add_custom_private_function(name, command_token, tokenizer, prefix=prefix, postcommands=[
-                            f'scoreboard players set {VAR} {DataPack.var_name} 1'])}""",
+                            f'scoreboard players set {VAR} {DataPack.var_name} 1'], postcommands_after_return=True)}""",
                         f"execute if score {VAR} {DataPack.var_name} matches 0 run ",
                     ]
                 )
@@ -1105,7 +1105,7 @@ class Lexer:
                 outputs[-1].extend(
                     [
                         f"""{condition} {self.datapack.add_custom_private_function(name, command_token, tokenizer, prefix=prefix, postcommands=[
-                            f'scoreboard players set {VAR} {DataPack.var_name} 1'])}""",
+                            f'scoreboard players set {VAR} {DataPack.var_name} 1'], postcommands_after_return=True)}""",
                         f"execute if score {VAR} {DataPack.var_name} matches 0 run ",
                     ]
                 )
